@@ -124,12 +124,14 @@ class ContractMixin:
             st.assume(nl >= 0)
             st.DL = z3.Store(st.DL, r, cond(r, nl, z3.Select(st.DL, r)))
             st.LS = z3.Store(st.LS, r, cond(r, smt.fresh('mods', smt.SeqV), z3.Select(st.LS, r)))
+            mods.setdefault('_havocked', []).append(r)
         for g in mods['ghost']:
             arr = st.ghost[g]
             st.ghost[g] = smt.fresh('g' + g, arr.sort())
         a0 = st.A
         st.A = smt.fresh('A', smt.Int)
         st.assume(st.A >= a0)
+        mods.pop('_havocked', None)
 
     def havoc_all(self, st: St):
         tag = smt._cnt[0] = smt._cnt[0] + 1
@@ -162,7 +164,9 @@ class ContractMixin:
             s2, loc = b
             for g in c.ghost:
                 if g not in loc or (isinstance(loc[g], tuple) and loc[g][0] == 'default'):
-                    loc[g] = SV(smt.fresh('ghost_' + g, Val))   # ghost arguments are chosen freely by the caller
+                    # ghost arguments are chosen by the caller: its own ghost of the same name if it has one
+                    mine = self.unit_env.get(g) if self.unit_contract is not None and g in self.unit_contract.ghost else None
+                    loc[g] = mine if mine is not None else SV(smt.fresh('ghost_' + g, Val))
             for p, val in list(loc.items()):
                 if isinstance(val, tuple) and val[0] == 'default':
                     loc[p] = self.sev(s2, val[1], {'__target_module__': tmod}, c.module)
@@ -233,6 +237,9 @@ class ContractMixin:
                     if 'result' not in loc:
                         e3['result'] = res
                 self.run_lets(s3, c, e3, 'post')
+                # ghost updates of the callee: the cell gets a new value, characterised by the callee's postconditions
+                for call in c.calls('ghost_update'):
+                    self.do_ghost_update(s3, call, e3, c, opaque=True)
                 dbg = os.environ.get('PYVC_DEBUG_CONTRACT') == c.target
                 if dbg:
                     print('DEBUG apply', c.target, 'feasible after modifies:', self.feasible(s3))
@@ -241,8 +248,6 @@ class ContractMixin:
                     s3.assume(self.spec_bool(s3, self.sev(s3, rest[0], e3, c.module)))
                     if dbg:
                         print('   after ensures', label, self.feasible(s3))
-                for call in c.calls('ghost_update'):
-                    self.do_ghost_update(s3, call, e3, c)
                 s3.pc.extend(pre.pc[pre_len:])
                 if self.feasible(s3):
                     outs.append(Out('ok', s3, res))
@@ -275,11 +280,14 @@ class ContractMixin:
                 outs.append(Out('raise', s4, self.user_exception(s4)))
         return outs
 
-    def do_ghost_update(self, st, call, env, c):
+    def do_ghost_update(self, st, call, env, c, opaque=False):
         name = call.args[0].value
         key = self.sev(st, call.args[1], env, c.module)
-        val = self.sev(st, call.args[2], env, c.module)
         arr = st.ghost[name]
+        if opaque:
+            st.ghost[name] = z3.Store(arr, r_of(self.to_term(st, key)), smt.fresh('gv_' + name, arr.sort().range()))
+            return
+        val = self.sev(st, call.args[2], env, c.module)
         t = val.term if isinstance(val, (SeqTermV, RawV, BoolTermV)) else self.to_term(st, val)
         if arr.sort().range() == smt.Bool and t.sort() != smt.Bool:
             t = self.spec_bool(st, val)
@@ -493,6 +501,8 @@ class ContractMixin:
                             nv = SV(v.term, e.func.id[3:], v.cls)
                         elif e.func.id in ('is_dict', 'is_list', 'is_tuple'):
                             nv = SV(v.term, 'ref', self.cls(e.func.id[3:]), True)
+                        elif e.func.id == 'is_namedtuple':
+                            nv = SV(v.term, 'ref', self.cls('tuple_namedtuple'), True)
                         elif e.func.id == 'is_set':
                             nv = SV(v.term, 'ref', self.cls('set'))
                         if nv is not None:
